@@ -2,7 +2,8 @@
     Every theorem quantifies over ALL segment lists (no well-formedness hypothesis), over every
     hash function standing for SHA-256 and over every iteration order of the two HashMap
     levels of the search (any function returning a permutation). *)
-From Sci Require Import Combine.Model Combine.Proofs Combine.ProofsEnc Combine.ProofsC19 Combine.ProofsBound.
+From Sci Require Import Combine.Model Combine.Spec Combine.Obs Combine.Proofs Combine.ProofsEnc Combine.ProofsC19 Combine.ProofsBound
+  Combine.ProofsDecode Combine.ProofsReparse.
 From Coq Require Import Permutation.
 Local Open Scope N_scope.
 
@@ -51,11 +52,8 @@ Print Assumptions solutions_bounded.
     AS of the first and of the last metadata interface, the interface list is not empty and
     has even length (two interfaces per link), and the metadata expiration equals the
     expiration computed from the data-plane path.
-    PARTIAL with respect to the property's "parse back": that decoding the bytes returns the
-    same fields is checked by the correspondence (the harness decodes the implementation's
-    bytes through the view accessors and the first path's raw bytes are compared with the
-    model's encoding), not by a decoder theorem. *)
-Theorem outputs_self_consistent_partial :
+    (That the bytes parse back to the same fields is [outputs_reparse] below.) *)
+Theorem outputs_self_consistent :
   forall Hid Hfp ord_v ord_e src dst cores non_cores out p,
     order_ok ord_v ord_e ->
     combine_paths Hid Hfp ord_v ord_e src dst cores non_cores = Ok out -> In p out ->
@@ -73,7 +71,25 @@ Proof.
   cbn. split; [exact Hw|]. split; [reflexivity|]. split; [apply view_accepts_encoding; exact Hw|].
   exists (mkMeta e mtu (Some ifs)), ifs, f, l. cbn. auto 10.
 Qed.
-Print Assumptions outputs_self_consistent_partial.
+Print Assumptions outputs_self_consistent.
+
+(** Parse back: the encoded bytes of every returned path decode -- with the independent decoder
+    of [Spec] that follows the SCION header specification (4-byte path meta header with 6-bit
+    segment lengths, 8-byte info fields, 12-byte hop fields) -- to exactly the info fields and
+    hop fields the path is reported to consist of.  The hypothesis says that the fields of the
+    input segments fit their Rust types (u32 timestamp, u16 SegID and interface ids, u8
+    ExpTime, 6-byte MAC); nothing else is assumed about the segments. *)
+Theorem outputs_reparse :
+  forall Hid Hfp ord_v ord_e src dst cores non_cores out p,
+    order_ok ord_v ord_e ->
+    Forall segment_typed (cores ++ non_cores) ->
+    combine_paths Hid Hfp ord_v ord_e src dst cores non_cores = Ok out -> In p out ->
+    decode_std (sp_bytes p) = Some (o_segs (obs_path p)).
+Proof.
+  intros Hid Hfp ord_v ord_e src dst cores non_cores out p [Hv He] Hty Hout Hp.
+  exact (combine_reparse _ _ _ _ _ _ _ _ _ _ Hv He Hty Hout Hp).
+Qed.
+Print Assumptions outputs_reparse.
 
 (** Segments that cannot contribute are ignored.  PARTIAL: proved for segments without AS
     entries (inserted anywhere in either list, the result is unchanged); for other
